@@ -49,6 +49,9 @@ def run(tier, runner):
     r_emu.require(8, 'emulated algorithm overloads')
     ob = lifetime.obligations(progs)
     r_raw = ob['RAWTAIL']
+    r_cur = lifetime.cursor(progs)
+    r_same = callgraph.bytecopy_sametype(progs)
+    r_cur.require(4, 'try blocks with a constructing loop and a roll-back handler (pre-C++17 emulations)')
     nonreloc = [(p, p.meta['E']) for p in progs if p.meta['elem'] not in gen.RELOC and p.meta['elem'] not in gen.TRIV_COPY]
     reloc = [(p, p.meta['E']) for p in progs if p.meta['elem'] in gen.RELOC]
     r_mem, npos = callgraph.memop(nonreloc, reloc)
@@ -69,8 +72,8 @@ def run(tier, runner):
     r_ord.require(3, 'generic relocate implementations and MemMove modes')
     r_raw.require(10, 'constructing loops / algorithms')
     return {
-        'results': [r_ret, r_ord, r_adv, r_emu, r_raw, r_mem, r_eff] + r_w,
-        'explanation': 'Per language standard (different implementations are selected by the #if ladders): RETURN - every non-void function returns on every '
+        'results': [r_ret, r_ord, r_adv, r_emu, r_raw, r_cur, r_same, r_mem, r_eff] + r_w,
+        'explanation': 'SAMETYPE: memcpy / memmove only between pointers to the same value type (cross-type copies are instantiated and must convert).  CURSOR: in every try { constructing loop } catch { destroy(first, cursor) } the cursor is never advanced inside the arguments of the constructing call, so the handler destroys exactly the objects that exist.  Per language standard (different implementations are selected by the #if ladders): RETURN - every non-void function returns on every '
                        'path; SIG - result types and iterator advances as the standard algorithms (compile-time); CLEANUP (RAWTAIL on memory.hpp) - every '
                        'construct loop is inside a try whose handler destroys [dest,current) and rethrows, so partial output is destroyed on throw; '
                        'RELOC-ORDER - the generic relocate move-constructs every destination before destroying any source (sources stay alive when a '
